@@ -68,4 +68,14 @@ REG = {
         'SZX on the simulator; TLC requires the unfiltered listing to render exactly the registered set, the filtered one to be Listing(), every window, '
         'total and truncation flag to be exact, and every reassembled body to equal the listing.',
    note='Attribute order within a link is read from the unfiltered listing (RFC 6690 does not fix it). Filters the statement does not define are executed, not judged.'),
+ 'C10': dict(module='server', engine='server', category='model_checking', design_ref='4/C10',
+   technique='TLA+ decision table Server!Decide evaluated by TLC on the RFC decoding of every request injected into the real server',
+   text='Server.tla states the reply rules (type/mid/token shape, 4.02 / RST for unknown critical or illegally repeated options, 4.04 / 2.02 / unknown-resource '
+        'handler, 4.05, 4.12, 4.15, 5.05, 5.08 / 4.00, invalid code classes, multicast, No-Response) as a function from the abstract request and the resource '
+        'table to the SET of allowed outcomes; MC_Server checks it is total and consistent over a feature product. Request datagrams from the feature product '
+        '(method x type x path x 6 tables, every option feature singly and in sampled pairs, invalid classes, multicast, random) are injected into a real server '
+        'context on the simulator; for each, TLC decodes the raw bytes with CoapWire, evaluates Decide and checks at most one reply, its shape and code, that exactly '
+        'the prescribed handler ran once, and that it was given the request\'s options (Hop-Limit decremented), query, payload and token.',
+   note='Where two rules apply any applicable outcome passes; library-generated error replies may or may not honour No-Response / multicast suppression. '
+        'Proxy forwarding itself, Block/Observe side effects and diagnostic payload text are not constrained.'),
 }
